@@ -296,9 +296,10 @@ def build_harness(ctx, extra_bins=(), bins=None):
     if not os.path.exists(lock):
         shutil.copy(os.path.join(REPO, "Cargo.lock"), lock)
     env = {"RUSTFLAGS": "--cfg mimium_verif", "CARGO_TARGET_DIR": TARGET}
-    blist = list(bins) if bins is not None else [ctx.pid.lower()] + list(extra_bins)
-    p = run(["cargo", "build", "--offline", "--quiet"] + [x for b in blist for x in ("--bin", b)],
-            cwd=HARNESS, env=env, timeout=3600)
+    # ALL binaries, whatever the caller names: several checks also run another property's binary (C19 takes its solo
+    # references from `c15`, the program-level checks use `runprog`), and a binary left over from an earlier build of
+    # /repo would silently answer for a tree that no longer exists.  With nothing changed this costs ~1 s.
+    p = run(["cargo", "build", "--offline", "--quiet", "--bins"], cwd=HARNESS, env=env, timeout=3600)
     ctx.coverage["harness_build_s"] = round(time.time() - t0, 1)
     if p.returncode != 0:
         ctx.violation("harness does not build against /repo's current tree (API used by the correspondence changed): "
